@@ -47,8 +47,67 @@ let bits_of_mask (m : int) : int list =
 
 exception Bad of string * string * string     (* property, kind, message *)
 
+(* wide cases (header wide=1; bdd, bcdd, zbdd with 65..200 variables: eval packs the assignment into machine words,
+   value tables are out of reach): every slot carries the specification function (extracted spec layer coq/DD/Sem.v:
+   var_s, lift1, lift2, ite_s, restrict_s) of the expression that built it; EVALA h <bits> must return its value.
+   No snapshot is lifted. *)
+let wide_bool_case c =
+  let failed = ref false in
+  let fail step msg =
+    stat "bad_C02" 1;
+    if not !failed then (failed := true; verdict_bad c step "prop" ("prop=C02 wide eval: " ^ msg)) in
+  let ex : (int, Model.bfun) Hashtbl.t = Hashtbl.create 64 in
+  let get a = Hashtbl.find_opt ex (slot_of a) in
+  List.iteri
+    (fun i l ->
+      if l = "HANG" || starts_with l "PANIC" || starts_with l "CRASH" then fail i ("implementation panicked/hung: " ^ l)
+      else begin
+        let ops, res = split_arrow l in
+        if not (starts_with res "err") then
+          match split_ws ops with
+          | [ "CONST"; d; b ] -> Hashtbl.replace ex (slot_of d) (Model.const_s (b = "1"))
+          | [ "VAR"; d; v ] -> Hashtbl.replace ex (slot_of d) (Model.var_s (nat (int_of_string v)))
+          | [ "NVAR"; d; v ] -> Hashtbl.replace ex (slot_of d) (Model.lift1 not (Model.var_s (nat (int_of_string v))))
+          | [ ("NOT" | "NOTO"); d; a ] ->
+            (match get a with Some x -> Hashtbl.replace ex (slot_of d) (Model.lift1 not x) | None -> Hashtbl.remove ex (slot_of d))
+          | [ "ITE"; d; f; g; h ] ->
+            (match get f, get g, get h with
+             | Some x, Some y, Some z -> Hashtbl.replace ex (slot_of d) (Model.ite_s x y z)
+             | _ -> Hashtbl.remove ex (slot_of d))
+          | [ "RESTRICT"; d; a; pos; neg ] ->
+            (match get a with
+             | Some x ->
+               let lits = List.map (fun v -> (nat v, true)) (bits_of_mask (int_of_string pos))
+                          @ List.map (fun v -> (nat v, false)) (bits_of_mask (int_of_string neg)) in
+               Hashtbl.replace ex (slot_of d) (Model.restrict_s lits x)
+             | None -> Hashtbl.remove ex (slot_of d))
+          | [ "CLONE"; d; a ] ->
+            (match get a with Some x -> Hashtbl.replace ex (slot_of d) x | None -> Hashtbl.remove ex (slot_of d))
+          | [ ("DROP" | "DROPT"); a ] -> Hashtbl.remove ex (slot_of a)
+          | [ "DROPALL" ] -> Hashtbl.reset ex
+          | [ "EVALA"; a; bits ] ->
+            (match get a, split_ws res with
+             | Some x, [ "ev"; v ] ->
+               stat "wide_eval" 1;
+               let asg (vn : Model.nat) : bool = let k = int_of_nat vn in k < String.length bits && bits.[k] = '1' in
+               let m = x asg in
+               if v <> (if m then "1" else "0") then
+                 fail i (Printf.sprintf "eval of h%d under %s is %s, the specification of the expression that built it gives %b"
+                           (slot_of a) bits v m)
+             | _ -> stat "unresolved" 1)
+          | [ op; d; a; b ] when bop_of op <> None ->
+            (match get a, get b, bop_of op with
+             | Some x, Some y, Some o -> Hashtbl.replace ex (slot_of d) (Model.lift2 o x y)
+             | _ -> Hashtbl.remove ex (slot_of d))
+          | _ -> ()
+      end)
+    c.lines;
+  stat "wide_cases" 1;
+  if not !failed then verdict_ok c
+
 let () =
   iter_cases stdin (fun c ->
+      if param c "wide" = Some "1" && param c "kind" <> Some "tdd" then wide_bool_case c else
       let kname = match param c "kind" with Some k -> k | None -> "bdd" in
       let tts : (int, vt) Hashtbl.t = Hashtbl.create 64 in
       let fams : (int, int list) Hashtbl.t = Hashtbl.create 64 in
